@@ -149,18 +149,18 @@ Qed.
 
 (* c14_sticky_balanced_partial *)
 Theorem ctl_run_balanced : forall ppt ms prev st0 assigns reassigns obs r,
-  ids_nodup ms -> prev_ok ppt ms prev -> NoDup (map snd st0) ->
+  ids_nodup ms -> NoDup (map snd st0) ->
   ctl_run ppt ms prev st0 assigns reassigns obs = Some r ->
   kip54_balanced ms (cr_balanced r) /\
   (cr_reverted r = false -> kip54_balanced ms (cr_final r)).
 Proof.
-  intros ppt ms prev st0 assigns reassigns obs r Hi Hprev Hn H.
+  intros ppt ms prev st0 assigns reassigns obs r Hi Hn H.
   destruct (ctl_run_inv _ _ _ _ _ _ _ _ H) as [st3 [mv [E2 [Ec [E3 [Ee [Eb [Er Ef]]]]]]]].
   assert (I : abs_inv ppt ms (drop ppt ms st0, None))
     by (split; simpl; [apply drop_sound; auto | discriminate]).
   assert (Hs2 : sound ppt ms (cr_prebalance r))
     by apply (proj1 (abs_run_inv _ _ _ _ _ I (ctl_assigns_abs _ _ _ _ _ None E2))).
-  pose proof (ctl_reassigns_abs _ _ _ _ _ _ _ _ _ None Hprev Hs2 E3) as A3.
+  pose proof (ctl_reassigns_abs _ _ _ _ _ _ _ _ _ None Hs2 E3) as A3.
   assert (Hs3 : sound ppt ms st3).
   { assert (I2 : abs_inv ppt ms (cr_prebalance r, None)) by (split; simpl; auto; discriminate).
     apply (proj1 (abs_run_inv _ _ _ _ _ I2 A3)). }
